@@ -231,6 +231,33 @@ class AssocMap:
         i = self._find(key)
         return default if i < 0 else self.items_[i][1]
 
+    def setdefault(self, key, default=None):
+        i = self._find(key)
+        if i < 0:
+            self.items_.append((key, default))
+            return default
+        return self.items_[i][1]
+
+    def __delitem__(self, key):
+        i = self._find(key)
+        if i < 0:
+            raise KeyError(key)
+        del self.items_[i]
+
+    def pop(self, key, *default):
+        i = self._find(key)
+        if i < 0:
+            if default:
+                return default[0]
+            raise KeyError(key)
+        return self.items_.pop(i)[1]
+
+    def clear(self):
+        self.items_ = []
+
+    def __iter__(self):
+        return iter(self.keys())
+
 
 # --------------------------------------------------------------------------
 # numpy subset used by pdb2pqr.utilities / quatfit, on lists of proxies
